@@ -1517,6 +1517,17 @@ pub fn c12(ctx: &mut Ctx) {
             }
         }
     }
+    // the documented refusal: signed BINARY numbers are not supported — `into_signed(Binary)` panics, for every value (the model's
+    // `intoSignedChecked` is `none` exactly there; found unexecuted by tools/coverage.py)
+    for i in [0i32, 1, -1, 7, -300, i32::MAX, i32::MIN + 1] {
+        let line = format!("signed binary {}", i);
+        let r = ctx.op(&line);
+        ctx.nontrivial(&line);
+        if r != "PANIC" {
+            ctx.note("into_signed(Binary) returned a term: the documented refusal of signed binary numbers is gone");
+        }
+        ctx.count("signed_binary_refused");
+    }
     // containers of numerals at the top of the usize range (binary only: the others would be astronomically large)
     for a in [usize::MAX, 1usize << 63] {
         for line in [format!("numpair binary {} 3", a), format!("numopt binary some {}", a), format!("numres binary ok {}", a), format!("numres binary err {}", a)] {
